@@ -20,7 +20,7 @@ PSimProposal ==
           /\ p.blk \notin ns[Me].stored
           /\ Rnd(par) < r
           /\ p \notin ns[Me].parked /\ p \notin ns[Me].pwait
-          /\ (UseEnvSafe => EnvSafe(Shown(Me) \cup {p.blk}))
+          /\ SafeWith({p.blk}, {})
           /\ Publish(Me, HandleProposal(ns[Me], p, Keys(p.blk) \subseteq have), PCause(p))
           /\ trace' = Append(trace, [a |-> "Proposal", blk |-> p.blk, tc |-> p.tc, avail |-> FALSE])
           /\ UNCHANGED have
